@@ -172,7 +172,15 @@ func (builder *RuleBuilder) BuildRuleFromResource(name, version string, resource
 	psr.AddErrorListener(errReporter)
 
 	psr.BuildParseTrees = true
-	antlr.ParseTreeWalkerDefault.Walk(listener, psr.Grl())
+	tree := psr.Grl()
+	if errReporter.HasError() {
+		// the text is not grammatical: the parse tree holds the parser's guesses, building rule entries
+		// from it would put broken rules into the knowledge base.
+		BuilderLog.Errorf("GRL syntax error. got %s", errReporter.Error())
+
+		return errReporter
+	}
+	antlr.ParseTreeWalkerDefault.Walk(listener, tree)
 
 	grl := listener.Grl
 	for _, ruleEntry := range grl.RuleEntries {
